@@ -46,7 +46,7 @@ def t_sem(ctx):
     pdur = min(Exact('1/10'), semT / 2)   # probe body shorter than the acquisition time-out
     ctx.new_loop(horizon=30)
     loop = ctx.loop
-    kw = dict(wait=0, retries=0, timeout=TO, semaphore_limit=L, semaphore_lax=lax,
+    kw = dict(wait=float(Exact(ctx.cfg.get('wait', '0'))), retries=int(ctx.cfg.get('retries', 0)), timeout=TO, semaphore_limit=L, semaphore_lax=lax,
               semaphore_timeout=None if st_cfg is None else float(Exact(st_cfg)))
 
     class Boom(Exception):
@@ -150,12 +150,25 @@ def t_sem(ctx):
     inprog = {}
     holders = {}     # per scope: callers that entered while fewer than L slot holders were in progress (they own a slot)
     entered = {}
+    retrying = int(ctx.cfg.get('retries', 0)) > 0     # a retried caller keeps its slot from its first entry until the whole call ends
+    lax_entrants = set()
     for r in recs:
         if r.kind == 'BE':
             cur = inprog.setdefault(r.key, [])
             hold = holders.setdefault(r.key, [])
             me = info[r.i]
+            if retrying and (r.i in hold or r.i in lax_entrants):
+                cur.append(r.i)          # a further attempt of a caller that is already inside
+                continue
+            if retrying and len(hold) >= L and len([x for x in cur if x not in lax_entrants]) < L:
+                # the slot owner is between two attempts (back-off): nothing of that scope is executing, so entering now does not
+                # exceed "L executing at once" whichever way the implementation treats the slot during the back-off
+                lax_entrants.add(r.i)
+                cur.append(r.i)
+                entered.setdefault(r.i, r)
+                continue
             if len(hold) >= L:
+                lax_entrants.add(r.i)
                 ctx.witness('limit exceeded (lax)')
                 # documented exception only: lax and the caller waited the full acquisition time-out; it owns no slot
                 ctx.check('C20.limit', zand(lax, r.t == me['call'] + semT), caller=r.i, inprog=list(cur), holders=list(hold))
@@ -166,11 +179,15 @@ def t_sem(ctx):
             else:
                 hold.append(r.i)
             cur.append(r.i)
-            entered[r.i] = r
+            entered.setdefault(r.i, r)      # (a retried caller enters the body again: its first entry is the acquisition)
         elif r.kind == 'BX':
             inprog[r.key].remove(r.i)
+            if not retrying and r.i in holders.get(r.key, []):
+                holders[r.key].remove(r.i)
+        elif r.kind == 'END' and retrying:
             if r.i in holders.get(r.key, []):
                 holders[r.key].remove(r.i)
+            lax_entrants.discard(r.i)
     # ---- per caller
     for cid, me in info.items():
         if not isinstance(me, dict) or 'call' not in me:
@@ -187,13 +204,21 @@ def t_sem(ctx):
             others = [x for x in recs if x.kind in ('BE', 'BX') and x.key == me['key'] and x.seq < be.seq]
             cnt_at_call = 0
             callseq = next(x.seq for x in recs if x.kind == 'CALL' and x.i == cid)
+            inside = set()
             for x in recs:
                 if x.seq >= callseq:
                     break
-                if x.kind == 'BE' and x.key == me['key']:
-                    cnt_at_call += 1
-                elif x.kind == 'BX' and x.key == me['key']:
-                    cnt_at_call -= 1
+                if not retrying:
+                    if x.kind == 'BE' and x.key == me['key']:
+                        cnt_at_call += 1
+                    elif x.kind == 'BX' and x.key == me['key']:
+                        cnt_at_call -= 1
+                else:
+                    if x.kind == 'BE' and x.key == me['key']:
+                        inside.add(x.i)
+                    elif x.kind == 'END' and x.key == me['key']:
+                        inside.discard(x.i)
+                    cnt_at_call = len(inside)
             waiting_before = [y for y in info.values() if isinstance(y, dict) and y.get('key') == me['key'] and y is not me
                               and any(x.kind == 'CALL' and x.i == y['i'] and x.seq < callseq for x in recs)
                               and not any(x.kind in ('BE', 'END') and x.i == y['i'] and x.seq < callseq for x in recs)]
@@ -300,6 +325,8 @@ def jobs(tier):
                        witnesses=('cancelled while waiting', 'cancelled while running')))
         out.append(Job('C20', 'r.sem', t_sem, dict(L=1, n=2, scope='global', sem_timeout='1/2', cancel=0, raising=False, nd=1),
                        witnesses=('cancelled while running',)))
+        out.append(Job('C20', 'r.sem', t_sem, dict(L=1, n=2, scope='global', sem_timeout=None, raising=True, cancel=0, nd=1, retries=1, wait='1/5'),
+                       witnesses=W + ('cancelled while running',)))
         out.append(Job('C20', 'r.sem', t_sem, dict(L=1, n=3, scope='two_names', sem_timeout='1/2', raising=False, nd=1), witnesses=W))
         out.append(Job('C20', 'r.sem', t_sem, dict(L=1, n=3, scope='class', sem_timeout='1/2', raising=False, nd=1), witnesses=W))
         out.append(Job('C20', 'r.sem', t_sem, dict(L=1, n=3, scope='self', sem_timeout='1/2', raising=False, nd=1), witnesses=W))
